@@ -709,26 +709,30 @@ Proof.
   destruct (d_part x); [discriminate|]. destruct (d_out x); [discriminate|]. auto.
 Qed.
 
-Lemma R_accept fuel w d it : mode <> MNeutral -> can_take (getd w d) it -> R w (accept fuel nw w d it).
+(** taking the part in: one (non-neutral) transformer, for a buffer followed by its level record *)
+Lemma R_accept_first w d it1 :
+  mode <> MNeutral -> can_take (getd w d) it1 -> R w (accept_first nw (d_kind (getd w d)) w d it1).
 Proof.
-  intros NF [P [O [B SH]]]. unfold accept. set (it1 := item_add_hist d it). set (x0 := getd w d) in *.
-  match goal with |- context[rec_part ?ww L_RECEIVED d nw it1] => set (w2 := ww) end.
-  assert (R2 : R w w2).
-  { unfold w2. destruct (d_kind x0) eqn:K.
-    all: try (step_dev w d (t_accept nw it1) (dp_accept nw it1); [cbn beta; fold x0; rewrite K; repeat split; auto; discriminate|Rt]).
-    - step_dev w d (t_accept_proc nw it1) (dp_accept_proc nw it1); [cbn beta; fold x0; destruct (SH eq_refl); repeat split; auto|Rt].
-    - step_dev w d (t_accept_buffer nw it1) (dp_accept_buffer nw it1);
-        [cbn beta; fold x0; repeat split; auto; unfold it1; rewrite item_count_add_hist; apply B; reflexivity|apply R_data].
-    - step_dev w d (t_accept_sink nw it1) (dp_accept_sink nw it1); [cbn beta; fold x0; repeat split; auto|Rt]. }
-  apply (R_trans w w2); [exact R2|].
+  intros NF [P [O [B SH]]]. set (x0 := getd w d) in *. unfold accept_first. destruct (d_kind x0) eqn:K.
+  all: try (step_dev w d (t_accept nw it1) (dp_accept nw it1); [cbn beta; fold x0; rewrite K; repeat split; auto; discriminate|Rt]).
+  - step_dev w d (t_accept_proc nw it1) (dp_accept_proc nw it1); [cbn beta; fold x0; destruct (SH eq_refl); repeat split; auto|Rt].
+  - step_dev w d (t_accept_buffer nw it1) (dp_accept_buffer nw it1);
+      [cbn beta; fold x0; repeat split; auto; apply B; reflexivity|apply R_data].
+  - step_dev w d (t_accept_sink nw it1) (dp_accept_sink nw it1); [cbn beta; fold x0; repeat split; auto|Rt].
+Qed.
+
+(** everything after that is census-neutral (holds in every mode) *)
+Lemma R_accept_rest fuel k w2 d it1 : d_kind (getd w2 d) = k -> R w2 (accept_rest fuel nw k w2 d it1).
+Proof.
+  intro K2. unfold accept_rest.
   set (w3 := rec_part w2 L_RECEIVED d nw it1). apply (R_trans w2 w3); [apply R_data|].
   set (w4 := run_cbops nw d true false (-1) (d_on_receive (getd w3 d)) w3).
   apply (R_trans w3 w4); [apply R_run_cbops|].
-  assert (R4 : R w w4).
-  { eapply R_trans; [exact R2|]. eapply R_trans; [apply R_data|apply R_run_cbops]. }
-  pose proof (R_kind w w4 R4 d) as K4. fold x0 in K4.
+  assert (R4 : R w2 w4).
+  { eapply R_trans; [apply R_data|apply R_run_cbops]. }
+  pose proof (R_kind w2 w4 R4 d) as K4. rewrite K2 in K4.
   destruct (negb (okf w4)); [Rt|]. set (x := getd w4 d) in *. destruct (d_out x); [Rt|].
-  destruct (d_kind x0) eqn:K; cbv zeta;
+  destruct k eqn:K; cbv zeta;
     try (destruct (operational x && match d_part x with Some _ => true | None => false end); [apply R_sched_finish|Rt]).
   - (* buffer *)
     destruct (d_part x) as [itb|] eqn:PB; [|Rt].
@@ -736,6 +740,29 @@ Proof.
     eapply R_trans; [apply R_signal|].
     match goal with |- context[if ?c then _ else _] => destruct c end; [apply R_sched_pass|Rt].
   - apply R_batcher_try_move. exact K4.
+Qed.
+
+Lemma accept_first_kind k w d it1 : d_kind (getd w d) = k -> d_kind (getd (accept_first nw k w d it1) d) = k.
+Proof.
+  intro K. unfold accept_first.
+  assert (A : forall f, (forall y, d_kind (f y) = d_kind y) -> d_kind (getd (updd w d f) d) = k).
+  { intros f Hf. rewrite (getd_updd_field d_kind w d f d Hf). exact K. }
+  destruct k; cbv zeta; unfold data, emitf; cbn [getd f_devs]; apply A;
+    first [apply (dprim_kind _ _ (dp_accept nw it1)) | apply (dprim_kind _ _ (dp_accept_proc nw it1))
+          | apply (dprim_kind _ _ (dp_accept_buffer nw it1)) | apply (dprim_kind _ _ (dp_accept_sink nw it1))].
+Qed.
+
+Lemma can_take_hist x d it : can_take x it -> can_take x (item_add_hist d it).
+Proof.
+  intros [P [O [B SH]]]. split; [exact P|]. split; [exact O|]. split; [|exact SH].
+  intro K. rewrite item_count_add_hist. apply B, K.
+Qed.
+
+Lemma R_accept fuel w d it : mode <> MNeutral -> can_take (getd w d) it -> R w (accept fuel nw w d it).
+Proof.
+  intros NF CT. unfold accept.
+  eapply R_trans; [apply R_accept_first; [exact NF|apply can_take_hist, CT]|].
+  apply R_accept_rest. apply accept_first_kind. reflexivity.
 Qed.
 
 Lemma proc_can_accept_ok w d w1 :
